@@ -130,15 +130,14 @@ Proof.
     rewrite find_pfile_k, (kfind_in_nodup pf_handle _ p Hnd Hp) in U. exact (proj1 U).
 Qed.
 
-(* ---- p_locks: not for all lock-owner names ----------------------------------------------------------
-   [Spec.owner_code] (client, lock-owner, tag) -> N is not injective:
-   (cid * 1024 + key) confuses lock-owner 3072 of client 1 with lock-owner 0
-   of client 4.  Two clients holding overlapping *shared* locks under these
-   names give a model state (no panic, no sharing, table well formed) on
-   whose dump p_locks reports C20:table-not-wf.  So "p_inv holds on the dump
-   of every reachable state" is false as stated; it needs a bound on the
-   lock-owner names (the harness only uses small ones), or an injective
-   encoding. *)
+(* ---- p_locks and large lock-owner names --------------------------------------------------------------
+   With the first encoding [Spec.owner_code] = (cid*1024+key)*1024+tag+1 the
+   lock-owner 3072 of client 1 and the lock-owner 0 of client 4 got the same
+   code, and p_locks reported C20:table-not-wf on the dump of this state (two
+   clients holding overlapping shared locks; no panic, no sharing, table well
+   formed) -- a false alarm of the monitor, found while attempting the
+   monitor link and repaired by the owner of Spec.v (injective Cantor
+   pairing, f7b078d).  Kept as a regression example. *)
 Definition lock_shared (tid sess sq owner key : N) : list event :=
   [ ESeqBegin tid sess 0 sq true [OPutRootFH; OOpen owner 3 0 HowUnchecked (ClaimNull 1);
                                   OLock 1 0 10 (LockerNew sid_current key)];
@@ -148,10 +147,10 @@ Definition collide_events : list event :=
     ESolo 3 (SExchangeId 1 11); ESolo 4 (SCreateSession 4 6) ]
   ++ lock_shared 5 3 1 0 3072 ++ lock_shared 6 6 1 0 0.
 
-Lemma p_locks_refuted :
+Lemma p_locks_large_names :
   let st := reachable (mkConfig 4000 2 6) 1000 collide_events in
   st_panic st = false
   /\ map (fun p => map (fun k => (LS.lstart k, LS.lend k, LS.lowner k, LS.ltyp k)) (pf_locks p)) (st_pool st)
      = [[(0, 10, 2, LS.Shared); (0, 10, 1, LS.Shared)]]
-  /\ p_locks [] (dump_of st) = "C20:table-not-wf".
+  /\ p_locks [] (dump_of st) = "" /\ p_owner (dump_of st) = "".
 Proof. vm_compute. repeat split; reflexivity. Qed.
